@@ -114,6 +114,8 @@ type Path struct {
 	tickers       []*Chan
 	deadlockLabel string
 	shortReads    bool
+	batchSizes    bool // Batch.Len returns arbitrary non-decreasing values
+	spontFlush    bool // a commit may become durable at once (background memtable flush)
 	lockModel     bool // sync mutexes block and are scheduling points
 	mutexes       map[*Value]*Chan
 	yieldAtDB     bool // Pebble DB-handle operations are scheduling points
